@@ -33,7 +33,8 @@ Actions (an action that is not enabled when its turn comes is skipped and counte
   ["tick", q]         the clock advances by q quarters of the timeout (q seconds without timeout)
   ["timeout"]         the clock advances just past the timeout
   ["exit", kind, v]   processExited+processEnded;  ["exited", kind, v] / ["ended"] deliver them apart
-  ["ask"]             the caller obtains one more Deferred from the process protocol's when_connected()
+  ["ask"]             the caller obtains one more Deferred from the process protocol's when_connected();
+                      ["ask", 1]: and when that one is notified its callback/errback asks again at once
 After the schedule a fixed epilogue runs ("whatever follows"): processEnded if only processExited was
 delivered, outstanding ownership commands acknowledged (while Tor lives), everything pending delivered,
 and - once the process has ended - connections lost, pending connects refused and the clock moved past
@@ -102,6 +103,14 @@ ASSUMPTIONS = [
     "a late PROGRESS=100, on a protocol nobody was waiting on - is 'the launch result': the same obligations "
     "apply to each (a TorProcessProtocol constructed directly, as the repo's tests and pre-launch() callers do, "
     "has no temporary directory and no launch() Deferred; only the when_connected() obligations are checked)",
+    "'the authenticated control connection, on which ownership is also requested' is, for a successful "
+    "launch(), the connection it hands out (public Tor.protocol): Tor must have accepted AUTHENTICATE on it and "
+    "TAKEOWNERSHIP must have been written on it before launch() fired; the PROGRESS=100 report itself may have "
+    "arrived on any authenticated connection of this launch on which TAKEOWNERSHIP had been written (with two live "
+    "connections Tor sends the event on both; which one txtorcon reacts to first is not constrained). For "
+    "when_connected() (resolves to the process protocol) only the second half is checked",
+    "a when_connected() obtained from inside another one's callback/errback is one more launch result with the "
+    "same obligations (failure required once the process ended first); success is still never required",
     "two launches on one reactor are independent: 'the process' in 'removed once the process has ended' is the "
     "launch's own process; the clock is shared, each launch's timeout counts from its own start",
 ]
@@ -171,21 +180,40 @@ def chunk_end(stream, pos, action):
 class _Fire(object):
     """Observes one Deferred: every firing with the logical time at which it happened."""
 
-    def __init__(self, world, d, name, asked_act=-1):
+    def __init__(self, world, d, name, asked_act=-1, reask=False, reentrant=False):
         self.world = world
         self.name = name
         self.asked_act = asked_act  # index of the action at which the Deferred was obtained (-1: at the start)
         self.fires = []             # (tick, "ok"|"fail", value-or-failure)
         self.judged = False
+        self.reask = reask          # when notified, ask when_connected() again from inside the callback
+        self.reentrant = reentrant  # this one was obtained from inside another one's notification
         d.addCallbacks(self._ok, self._err)
 
     def _ok(self, r):
         self.fires.append((self.world.tick(), "ok", r))
+        self._again()
         return None
 
     def _err(self, f):
         self.fires.append((self.world.tick(), "fail", f))
+        self._again()
         return None
+
+    def _again(self):
+        # what `tor = yield launch(..); yield tor.process.when_connected()` or an errback that consults
+        # when_connected() does: ask from inside the notification
+        if not self.reask:
+            return
+        w = self.world
+        try:
+            d = w.transport.proto.when_connected()
+        except Exception as e:
+            w.labels.add("when-connected-raised:" + type(e).__name__)
+            return
+        w.labels.add("asked-from-inside-a-notification")
+        w.observers.append(_Fire(w, d, "%swhen_connected()#%d(asked inside the notification of %s)" % (
+            w.name, len(w.observers), self.name), asked_act=w.act, reentrant=True))
 
     @property
     def state(self):
@@ -593,7 +621,7 @@ class _World(object):
             obs = None
             try:
                 obs = _Fire(self, t.proto.when_connected(), "%swhen_connected()#%d" % (self.name, len(self.observers)),
-                            asked_act=self.act)
+                            asked_act=self.act, reask=(len(action) > 1 and bool(action[1])))
             except Exception as e:
                 self.labels.add("when-connected-raised:" + type(e).__name__)
             if obs is not None:
@@ -728,6 +756,34 @@ def _justified(w, tick):
     return False, "; ".join(why) or "no control connection at all"
 
 
+def _check_handed_out(w, res, obs, tk, tor, i, a):
+    """launch() succeeded with a Tor object: the control connection it hands out (public Tor.protocol) is
+    'the authenticated control connection, on which ownership of the process is also requested'."""
+    try:
+        proto = tor.protocol
+    except Exception:
+        w.labels.add("launch-result-has-no-protocol")
+        return
+    mine = [c for c in w.conns if c.pipe.proto is proto]
+    if not mine:
+        w.labels.add("handed-out-connection-not-one-of-the-harness")
+        return
+    c = mine[0]
+    if len(w.conns) > 1:
+        w.labels.add("handed-out-connection-%s-of-several" % ("first" if c.idx == 0 else "later"))
+    if not c.authenticated():
+        res.bad("handed-out-connection-not-authenticated",
+                "%s succeeded at action %d %r handing out control connection %d of %d, which Tor never "
+                "authenticated" % (obs.name, i, a, c.idx, len(w.conns)))
+    elif c.take_tick is None or c.take_tick > tk:
+        res.bad("handed-out-connection-without-takeownership",
+                "%s succeeded at action %d %r handing out control connection %d of %d; TAKEOWNERSHIP was "
+                "never written on that connection (commands it saw: %r); other connections: %s" % (
+                    obs.name, i, a, c.idx, len(w.conns), c.pipe.commands[-6:],
+                    ["#%d TAKEOWNERSHIP %s" % (o.idx, "written" if o.take_tick else "not written")
+                     for o in w.conns if o is not c]))
+
+
 def _scan_log(worlds, res, logs, state, i, a):
     """A second firing that txtorcon's event dispatch swallowed shows up in the log only."""
     for ev in logs.errors[state[0]:]:
@@ -768,6 +824,8 @@ def _step_checks(w, res, i, a, own_action=True):
                     res.bad(tag, "%s succeeded at action %d %r: %s (other results: %s)" % (
                         obs.name, i, a, why, ", ".join("%s=%s" % (o.name, o.describe())
                                                        for o in w.observers if o is not obs)))
+                elif obs is w.L:
+                    _check_handed_out(w, res, obs, tk, val, i, a)
         if len(obs.fires) > 1:
             res.bad("result-fired-twice", "%s fired %d times" % (obs.name, len(obs.fires)))
     # ---- directories
@@ -798,7 +856,11 @@ def _judge(w, res):
         for obs in w.observers:
             if obs.state == "fail":
                 continue
-            if obs.asked_act <= en:
+            if obs.reentrant and obs.state == "pending":
+                res.bad("asker-inside-notification-never-notified",
+                        "%s was obtained while the failure (process ended at action %d before any PROGRESS=100) "
+                        "was being delivered and never fired; all results: %s" % (obs.name, en, others))
+            elif obs.asked_act <= en:
                 res.bad("no-failure-after-process-end",
                         "%s is %s although the process ended (action %d) before any PROGRESS=100 (%r)" % (
                             obs.name, obs.describe(), en, f100))
@@ -820,7 +882,11 @@ def _judge(w, res):
                         "%s succeeded although the timeout elapsed (action %d) before PROGRESS=100 (%r); "
                         "all results: %s" % (obs.name, to, f100, others))
             elif w.ended and obs.state != "fail":
-                if obs.asked_act > en:
+                if obs.reentrant:
+                    res.bad("asker-inside-notification-never-notified",
+                            "%s was obtained while the timeout failure (action %d) was being delivered and never "
+                            "fired although the process ended at %r; all results: %s" % (obs.name, to, en, others))
+                elif obs.asked_act > en:
                     res.bad("late-when-connected-pending-after-failure",
                             "%s, obtained at action %d, is pending: timeout elapsed at action %d, process ended "
                             "at %r; all results: %s" % (obs.name, obs.asked_act, to, en, others))
@@ -1219,7 +1285,7 @@ def cases(draw):
         elif k == "timeout":
             sched.append(["timeout"])
         elif k == "ask":
-            sched.append(["ask"])
+            sched.append(["ask", 1] if _pick(draw, [False, False, True]) else ["ask"])
     return {"cfg": cfg, "sched": sched}
 
 
@@ -1356,6 +1422,48 @@ DIRECT_SCENARIOS = {
         [["ask"], ["ask"]]]),
 }
 
+REST = ["out", 10 ** 6]      # everything the child still has to print, one chunk
+
+RETRY_SCENARIOS = {
+    # a first control connection that got as far as an acknowledged TAKEOWNERSHIP, then the attempt fails
+    # and the second listener line opens connection #2, which is the one launch() hands out
+    "retry-after-resetconf-rejected": (_cfg(stdout=1), [
+        [["line"], ["conn", "ok"], ["own", "ack", 0], ["own", "rej", 0], REST,
+         ["conn", "ok"], ["own", "ack", 0], ["own", "ack", 0]],
+        [TO_100],
+        [["exit", "code", 1]]]),
+    "retry-after-connection-lost": (_cfg(stdout=1, timeout=None), [
+        [["line"], ["conn", "ok"], ["own", "ack", 0], ["lose", 0], REST,
+         ["conn", "ok"], ["own", "ack", 0], ["own", "ack", 0]],
+        [TO_100],
+        [["exit", "signal", 15]]]),
+}
+
+# single schedules that pin one class each (cheap; the generated search covers their neighbourhood)
+FIXED_SEQUENCES = [
+    # caller directories, no timeout to mask a missing failure, clean exit code
+    (_cfg(stdout=1, timeout=None, datadir="existing"), [["line"], ["exit", "code", 0]]),
+    (_cfg(stdout=1, timeout=None, datadir="new"), [["line"], ["conn", "ok"], ["exit", "code", 0]]),
+    (_cfg(stdout=1, timeout=None, datadir="new"),
+     [["line"], ["conn", "ok"], ["own", "ack", 0], ["own", "ack", 0], TO_100, ["exit", "signal", 15]]),
+    # every phase below 100% one by one, then nothing: no success
+    (_cfg(stdout=1, timeout=None), [["line"], ["conn", "ok"], ["own", "ack", 0], ["own", "ack", 0]] +
+     [["prog", 1]] * 10 + [["exit", "code", 1]]),
+    # asked from inside the failure / timeout / success notification
+    (_cfg(stdout=1, timeout=None, direct=True), [["ask", 1], ["line"], ["exit", "code", 1]]),
+    (_cfg(stdout=1, timeout=5, direct=True), [["ask", 1], ["timeout"], ["ask", 1], ["exit", "signal", 15]]),
+    (_cfg(stdout=1, timeout=None), [["ask", 1], ["line"], ["conn", "ok"], ["own", "ack", 0], ["own", "ack", 0],
+                                    TO_100, ["ask", 1], ["exit", "code", 0]]),
+    (_cfg(stdout=1, timeout=5), [["ask", 1], ["line"], ["conn", "ok"], ["prog", 5], ["timeout"],
+                                 TO_100, ["exit", "signal", 15]]),
+]
+
+
+def fixed_cases():
+    for cfg, sched in FIXED_SEQUENCES:
+        yield {"cfg": cfg, "sched": [list(a) for a in sched]}
+
+
 PAIR_SCENARIOS = {
     # (cfgA, cfgB, threads of [who, action])
     "pair-exit-vs-bootstrap": (_cfg(stdout=1), _cfg(stdout=1), [
@@ -1414,11 +1522,14 @@ MANIFEST = {
 
 
 def run(ctx):
+    ctx.enumerate("launch", fixed_cases(), name="fixed-sequences", exhaustive=False)
     ctx.enumerate("launch", scenario_cases("core-race", QUICK_SCENARIOS), name="interleavings:core-race")
     ctx.enumerate("launch", scenario_cases("direct-late-ask", DIRECT_SCENARIOS), name="interleavings:direct-late-ask")
+    for name in sorted(RETRY_SCENARIOS):
+        ctx.enumerate("launch", scenario_cases(name, RETRY_SCENARIOS), name="interleavings:" + name)
     ctx.enumerate("pair", pair_scenario_cases("pair-exit-vs-bootstrap"), name="interleavings:pair-exit-vs-bootstrap")
-    ctx.search("launch", cases(), quick=1800, thorough=8000)
-    ctx.search("pair", pair_cases(), quick=300, thorough=3000, name="pair")
+    ctx.search("launch", cases(), quick=1400, thorough=8000)
+    ctx.search("pair", pair_cases(), quick=200, thorough=3000, name="pair")
     if not ctx.quick():
         ctx.enumerate("launch", scenario_cases("core-race-caller-dir", QUICK_SCENARIOS),
                       name="interleavings:core-race-caller-dir")
@@ -1481,6 +1592,16 @@ MUTANTS = [
     ("late-asker-answers-swapped", "txtorcon/controller.py",
      "                return fail(self._connected_failure)\n            return succeed(self)\n",
      "                return succeed(self)\n            return fail(Failure(RuntimeError('x')))\n"),
+    # --- a retried control connection / askers from inside a notification
+    ("ownership-requested-once-per-process", "txtorcon/controller.py",
+     "        yield self.tor_protocol.queue_command('TAKEOWNERSHIP')\n"
+     "        yield self.tor_protocol.queue_command('RESETCONF __OwningControllerProcess')\n",
+     "        if not getattr(self, '_took_ownership', False):\n"
+     "            yield self.tor_protocol.queue_command('TAKEOWNERSHIP')\n"
+     "            self._took_ownership = True\n"
+     "            yield self.tor_protocol.queue_command('RESETCONF __OwningControllerProcess')\n"),
+    ("notify-over-a-snapshot", "txtorcon/controller.py",
+     "        for d in self._connected_listeners:\n", "        for d in list(self._connected_listeners):\n"),
     ("timeout-fires-success-path", "txtorcon/controller.py",
      "        fail = Failure(RuntimeError(\"timeout while launching Tor\"))\n        self._maybe_notify_connected(fail)\n",
      "        self._maybe_notify_connected(self)\n"),
